@@ -43,6 +43,15 @@ pub struct AddrMutSigner {
     #[validate(address = &KEY_A)]
     pub f: Signer<Mut<AccountInfo>>,
 }
+// user wrappers that only DECLARE a flag in the account metas (`#[single_account_set(signer / writable)]` is metadata for
+// clients and CPIs; it checks nothing): whatever a `Signer` / `Mut` wraps, it tests the flag itself
+#[derive(AccountSet, Debug)]
+pub struct DeclSigner(#[single_account_set(signer)] AccountInfo);
+#[derive(AccountSet, Debug)]
+pub struct DeclMut(#[single_account_set(writable)] AccountInfo);
+#[derive(AccountSet, Debug)]
+pub struct DeclBoth(#[single_account_set(signer, writable)] AccountInfo);
+
 // addresses with extreme bit patterns: all zero (= System::ID, also what an unset key in account data reads as) and all ones
 const KEY_F: Pubkey = Pubkey::new_from_array([255; 32]);
 #[derive(AccountSet, Debug)]
@@ -249,6 +258,20 @@ fam! {
     "S x4" => ViaDefault<StrictSigner>,
     "M S x4" => ViaDefault<StrictMutSigner>,
     "S . x4" => ViaDefault<StrictNested>,
+    // x7 / x8 / x9: the innermost type is a wrapper that declares signer / writable / both and checks nothing
+    "x7" => ViaDefault<DeclSigner>,
+    "S x7" => ViaDefault<Signer<DeclSigner>>,
+    "M S x7" => ViaDefault<Signer<Mut<DeclSigner>>>,
+    "S M x7" => ViaDefault<Mut<Signer<DeclSigner>>>,
+    "b S x7" => ViaDefault<Signer<Box<DeclSigner>>>,
+    "s1 x7" => ViaDefault<MaybeSigner<true, DeclSigner>>,
+    "x8" => ViaDefault<DeclMut>,
+    "M x8" => ViaDefault<Mut<DeclMut>>,
+    "S M x8" => ViaDefault<Mut<Signer<DeclMut>>>,
+    "m1 x8" => ViaDefault<MaybeMut<true, DeclMut>>,
+    "x9" => ViaDefault<DeclBoth>,
+    "M S x9" => ViaDefault<Signer<Mut<DeclBoth>>>,
+    "S M x9" => ViaDefault<Mut<Signer<DeclBoth>>>,
     "Ab S x5" => ViaStrict<TwoKeysSigner>,
     "Aa S x6" => ViaDefault<TwoKeysSigner>,
 }
